@@ -32,6 +32,8 @@ type Mismatch struct {
 	Input  string `json:"input"`
 	Model  string `json:"model"`
 	Impl   string `json:"impl"`
+	Sig    string `json:"signature"`
+	Recipe *R     `json:"recipe,omitempty"`
 }
 
 type Failure struct {
@@ -40,6 +42,7 @@ type Failure struct {
 	Input  string `json:"input"`
 	Detail string `json:"detail"`
 	Sig    string `json:"signature"`
+	Recipe *R     `json:"recipe,omitempty"`
 }
 
 type Result struct {
@@ -58,6 +61,9 @@ type Result struct {
 	NFailures   int            `json:"n_oracle_failures"`
 	OracleEvals map[string]int `json:"oracle_evaluations"`
 	Samples     []string       `json:"samples"`
+	FailSigs    map[string]int `json:"failure_signatures"`
+	Rule        string         `json:"rule"`
+	Extra       map[string]interface{} `json:"extra,omitempty"`
 	WallS       float64        `json:"wall_s"`
 	Notes       []string       `json:"notes"`
 }
@@ -132,7 +138,7 @@ func compare(res *Result, c *Case, model SX) {
 	if model.Kind != 'l' || len(model.L) == 0 || model.L[0].Sym != "res" {
 		res.NMismatch++
 		if len(res.Mismatches) < 40 {
-			res.Mismatches = append(res.Mismatches, Mismatch{c.ID, "driver", c.Cmd.String(), model.String(), c.Real.String()})
+			res.Mismatches = append(res.Mismatches, Mismatch{c.ID, "driver", c.Cmd.String(), model.String(), c.Real.String(), "tie:driver", c.Rec})
 		}
 		return
 	}
@@ -152,7 +158,7 @@ func compare(res *Result, c *Case, model SX) {
 				if ok {
 					ms = mf.String()
 				}
-				res.Mismatches = append(res.Mismatches, Mismatch{c.ID, name, c.Cmd.String(), ms, f.String()})
+				res.Mismatches = append(res.Mismatches, Mismatch{c.ID, name, c.Cmd.String(), ms, f.String(), "tie:" + name, c.Rec})
 			}
 		}
 	}
@@ -160,7 +166,7 @@ func compare(res *Result, c *Case, model SX) {
 		if f.Kind == 'l' && len(f.L) > 0 && !seen[f.L[0].Sym] {
 			res.NMismatch++
 			if len(res.Mismatches) < 40 {
-				res.Mismatches = append(res.Mismatches, Mismatch{c.ID, f.L[0].Sym, c.Cmd.String(), f.String(), "<absent>"})
+				res.Mismatches = append(res.Mismatches, Mismatch{c.ID, f.L[0].Sym, c.Cmd.String(), f.String(), "<absent>", "tie:" + f.L[0].Sym, c.Rec})
 			}
 		}
 	}
@@ -168,7 +174,8 @@ func compare(res *Result, c *Case, model SX) {
 
 func (res *Result) fail(c *Case, oracle, detail, sig string) {
 	res.NFailures++
-	if len(res.Failures) < 40 {
+	res.FailSigs[sig]++
+	if res.FailSigs[sig] <= 3 && len(res.Failures) < 60 {
 		in := ""
 		if c != nil {
 			in = c.Cmd.String()
@@ -177,7 +184,11 @@ func (res *Result) fail(c *Case, oracle, detail, sig string) {
 		if c != nil {
 			id = c.ID
 		}
-		res.Failures = append(res.Failures, Failure{id, oracle, in, detail, sig})
+		var rec *R
+		if c != nil {
+			rec = c.Rec
+		}
+		res.Failures = append(res.Failures, Failure{id, oracle, in, detail, sig, rec})
 	}
 }
 
@@ -214,6 +225,8 @@ func main() {
 	driver := flag.String("driver", "", "path of the Lean driver executable")
 	out := flag.String("out", "", "result JSON path")
 	replay := flag.String("replay", "", "replay file")
+	root := flag.String("root", "/verif", "verif root")
+	_ = root
 	flag.Parse()
 
 	errors.SetWarningFn(func(context.Context, string, ...interface{}) {})
@@ -221,7 +234,7 @@ func main() {
 
 	start := time.Now()
 	res := &Result{Property: *prop, Tier: *tier, Seed: *seed, Compared: map[string]int{}, OpCounts: map[string]int{},
-		DepthHist: map[string]int{}, OracleEvals: map[string]int{}}
+		DepthHist: map[string]int{}, OracleEvals: map[string]int{}, FailSigs: map[string]int{}}
 
 	runProperty(res, *prop, *tier, *seed, *driver, *replay)
 
